@@ -19,8 +19,11 @@ LEVEL = ('decides the discipline around explanations, not their logic: propagato
          'dominating comparison (L10) and is as strong as that comparison, so that the reason implies '
          'the branch it was made on (L13); implicit kernel reasons imply their predicate (L11); the '
          "cumulative handler's cached profile explanation is reset whenever the profile changes (L12)."
-         ' Beyond these necessary conditions: Logical sufficiency and truth of the stated facts — the '
-         'heart of the property — are NOT decided')
+         ' Further: every tested bound of another variable that guards a propagation is stated in the '
+         'reason (L15); the …_at_trail_position queries agree on the inclusive position convention '
+         '(L16); lazy reasons of reified propagators keep the literal (L17). Beyond these necessary '
+         'conditions: Logical sufficiency and truth of the stated facts — the heart of the property — '
+         'are NOT decided')
 TECHNIQUE = "static analysis: who-may-call / taint with control dependence / dominance over rustc MIR"
 
 ASSIGN_MUTATORS = ("tighten_lower_bound", "tighten_upper_bound", "remove_value_from_domain",
